@@ -105,7 +105,7 @@ def special_cause(d, rid, pos, name, sites):
     """Root-cause signatures of the two listed findings (decided from the dynamic facts, not from the failure)."""
     ins = d.ins
     real = [s for s in sites if s in ins.sites]
-    if ins.read_scope[rid] == 0 and real and len(real) == len(sites) and all(s in ins.global_sites for s in real):
+    if ins.module_level(ins.read_scope[rid]) and real and len(real) == len(sites) and all(s in ins.global_sites for s in real):
         return 'global-binding-invisible-at-module-level'
     if annotation_after_binding(ins, pos, sites):
         return 'annotation-evaluated-after-binding'
